@@ -7,7 +7,9 @@ ID = "C02"
 PROP_FILE = "Props/C02.v"
 THEOREMS = ["C02_exit_mapping", "C02_plan_end_decides", "C02_finalize_closes_open_runs", "C02_status_stable_until_finalize",
             "C02_abort_request_sets_reason", "C02_final_sleep_step", "C02_decision_reaches_stops", "C02_fail_closes_at_once",
-            "C02_outcome_of_call", "C02_failed_status_origin", "C02_interrupted_sticky", "C02_stop_halt_request_marks"]
+            "C02_outcome_of_call", "C02_failed_status_origin", "C02_interrupted_sticky", "C02_stop_halt_request_marks",
+            "C02_end_to_end", "C02_end_to_end_fail", "C02_final_sleep_has_decision", "C02_task_step_classified",
+            "C02_decision_unique", "C02_override_rule", "C02_reason_provenance", "C02_request_lands", "C02_request_decides"]
 COQ_IMPORTS = dc.COQ_IMPORTS
 RULE = dc.RULE + (" || C02 judges single-cause runs only: exactly one of {plan returned, stop, abort, halt, pause/suspension in a "
                   "non-resumable section, unhandled exception}, with a plan that lets the thrown control exception propagate; "
